@@ -205,7 +205,7 @@ fn check(c: &Case, obs: &mut Obs) -> CheckResult {
             let lf = u16::from_be_bytes([bytes[4], bytes[5]]) as usize;
             ensure!(size == lf.min(bytes.len()) && pl + 8 == size, "udp-view-size", "UdpDatagramView reports {size}/{pl}, length field {lf}, input {}", bytes.len());
         }
-        let _ = vcore::no_panic("ScmpPayloadView::try_from_mut_slice", || ScmpPayloadView::try_from_mut_slice(buf).map(|(v, _)| { let mut v = v; vfc::payload::scmp::exec_every_view_function(&mut v); }))?;
+        let _ = vcore::no_panic("ScmpPayloadView::try_from_mut_slice", || ScmpPayloadView::try_from_mut_slice(buf).map(|(v, _)| { let mut v = v; vfc::payload::scmp::exec_every_view_function(&mut v); let _ = std::hint::black_box(v.dst_port()); }))?;
         let _ = vcore::no_panic("StandardPathView exerciser", || StandardPathView::try_from_mut_slice(buf).map(|(v, _)| { vfc::path::exec_standard_path_view(v); vfc::path::exec_standard_path_view_mut(v); }))?;
         // boxed construction demands the exact size
         let rb = vcore::no_panic("ScionRawPacketView::try_from_boxed", || ScionRawPacketView::try_from_boxed(bytes.clone().into_boxed_slice()).map(|b| b.as_slice().len()))?;
@@ -373,6 +373,49 @@ fn run(ctx: &Ctx) {
         b.truncate(match tr { 0 => size - 1, 1 => size, _ => size + 1 });
         Some(Case { bytes: b, ops: vec![] })
     }, check);
+    // (a4) SCMP error messages quoting a packet cut at every length (quotes are truncated by design;
+    // accessors that look into the quote - destination port of the offending datagram - must cope)
+    {
+        let mut inners: Vec<Vec<u8>> = vec![];
+        for (dtl, stl) in [(0u8, 0u8), (3, 3), (0, 3)] {
+            for (pt, seg) in [(0u8, [0u8; 3]), (1, [2, 0, 0]), (1, [2, 2, 2]), (2, [0; 3])] {
+                for next in [17u8, 202, 6] {
+                    let mut v = layout_case(pt, dtl, stl, seg, 0, 0x1234_5678 ^ ((dtl as u64) << 8) ^ pt as u64 ^ ((next as u64) << 16));
+                    let hl = 28 + rw::host_len(dtl) + rw::host_len(stl) + match pt { 0 => 0, 1 => rw::std_path_size(seg), _ => 32 };
+                    v.resize(hl + 12, 0x5a);
+                    v[4] = next;
+                    v[5] = (hl / 4) as u8;
+                    v[6..8].copy_from_slice(&12u16.to_be_bytes());
+                    v[8] = pt;
+                    v[9] = (dtl << 4) | stl;
+                    inners.push(v);
+                }
+            }
+        }
+        let types = [1u8, 2, 4, 5, 6];
+        let per: u64 = inners.iter().map(|v| v.len() as u64 + 1).sum();
+        let mut index: Vec<(usize, usize)> = vec![];
+        for (i, v) in inners.iter().enumerate() { for k in 0..=v.len() { index.push((i, k)); } }
+        ctx.run_enum("scmp-error-quote-truncations", per * types.len() as u64 * 2, true, |i| {
+            let (ii, k) = index[(i % per) as usize];
+            let ty = types[((i / per) % types.len() as u64) as usize];
+            let outer_v6 = (i / per / types.len() as u64) % 2 == 1;
+            let fixed = rw::RScmp::fixed_len(ty).unwrap();
+            let (tl, hostlen) = if outer_v6 { (3u8, 16usize) } else { (0u8, 4usize) };
+            let hl = 28 + 2 * hostlen;
+            let l4 = 4 + fixed + k;
+            let mut b = sp::fill(hl + l4, i ^ 77);
+            b[0] &= 0x0f;
+            b[4] = 202;
+            b[5] = (hl / 4) as u8;
+            b[6..8].copy_from_slice(&(l4 as u16).to_be_bytes());
+            b[8] = 0;
+            b[9] = (tl << 4) | tl;
+            b[hl] = ty;
+            b[hl + 4 + fixed..].copy_from_slice(&inners[ii][..k]);
+            Some(Case { bytes: b, ops: ops_from(i, 4) })
+        }, check);
+    }
     // (b) random shaped buffers (the crate's own structure-aware biasing) and raw random bytes
     let n = ctx.tier.pick(400_000, 20_000_000);
     ctx.run_prop("shaped-random", n, || {
@@ -417,6 +460,7 @@ fn main() {
         Sub { name: "bytes", run, replay: |c, v| { vcore::guard::install_fault_handler("C02", "bytes"); c.replay_case::<Case>("bytes", v, check) } },
         Sub { name: "layout-standard-path", run: |_| {}, replay: |c, v| { vcore::guard::install_fault_handler("C02", "bytes"); c.replay_case::<Case>("bytes", v, check) } },
         Sub { name: "layout-other-paths", run: |_| {}, replay: |c, v| { vcore::guard::install_fault_handler("C02", "bytes"); c.replay_case::<Case>("bytes", v, check) } },
+        Sub { name: "scmp-error-quote-truncations", run: |_| {}, replay: |c, v| { vcore::guard::install_fault_handler("C02", "bytes"); c.replay_case::<Case>("bytes", v, check) } },
         Sub { name: "standalone-std-path", run: |_| {}, replay: |c, v| { vcore::guard::install_fault_handler("C02", "bytes"); c.replay_case::<Case>("bytes", v, check) } },
         Sub { name: "shaped-random", run: |_| {}, replay: |c, v| { vcore::guard::install_fault_handler("C02", "bytes"); c.replay_case::<Case>("bytes", v, check) } },
         Sub { name: "valid-then-mutated", run: |_| {}, replay: |c, v| { vcore::guard::install_fault_handler("C02", "bytes"); c.replay_case::<Case>("bytes", v, check) } },
